@@ -74,9 +74,13 @@ seq_t dtw_distance{{ suffix }}{{ suffix2 }}(seq_t *s1, idx_t l1,
         }
     } else if (max_dist == 0) {
         max_dist = INFINITY;
+    {%- if "euclidean" == inner_dist %}
+    }
+    {%- else %}
     } else {
         max_dist = pow(max_dist, 2);
     }
+    {%- endif %}
     if (l1 > l2) {
         ldiff = l1 - l2;
         dl = ldiff;
@@ -92,10 +96,14 @@ seq_t dtw_distance{{ suffix }}{{ suffix2 }}(seq_t *s1, idx_t l1,
     }
     if (max_step == 0) {
         max_step = INFINITY;
+    {%- if "euclidean" == inner_dist %}
+    }
+    {%- else %}
     } else {
         max_step = pow(max_step, 2);
     }
     penalty = pow(penalty, 2);
+    {%- endif %}
     // rows is for series 1, columns is for series 2
     idx_t length = MIN(l2+1, ldiff + 2*window + 1);
     assert(length > 0);
